@@ -84,3 +84,49 @@ class Inspections(PipelineBase):
                 rec['sample']={'scenario':mk(m),'expect':'ok' if oc=='ok' else 'err'}
                 if not events: rec['sample']['expect_no_events']=True
         return rec
+
+class SublayoutInspection(Inspections):
+    """a delegated step that has more evidence than its threshold needs: one functionary files an ordinary link, another a
+    sub-layout whose own inspection exits non-zero.  The inspection of the sub-layout did run; its failure is fatal."""
+    name='C08.sublayout_inspection'
+    def __init__(self,**kw):
+        Inspections.__init__(self,ninsp=1,**kw); self.name='C08.sublayout_inspection'
+        self.bounds={'outer_layout':'1 step (threshold 1, functionaries F0 and F1), 1 inspection that succeeds','evidence':'F0: an ordinary link with free signature validity; F1: a sub-layout (0 steps, 1 inspection) signed by F1',
+                     'inner_inspection':'stub returns Err, a link without exit status, or a link with any i32 exit status','hash_map_iteration':'every permutation'}
+        self.witnesses=['ok_inner_inspection_passed','err_inner_inspection_failed']
+    def mk_args(self,run):
+        b=self.b; F0,F1,OWN=0,1,2
+        lsig=SigD(F0,z3.BitVec('lmb',8),z3.Bool('lin'),z3.Bool('lov')); run.add(z3.ULE(tbv(lsig.made_by),2))
+        fail=bool(run.pick(2,'inner_fail')); rv=z3.BitVec('rv_inner',32)
+        nostatus=bool(run.pick(2,'inner_nostatus')) if not fail else False
+        gi={'fail':fail,'rv':rv,'products':{},'rules_fail':False,'name':'ii','none':nostatus}
+        go={'fail':False,'rv':z3.BitVecVal(0,32),'products':{},'rules_fail':False,'name':'i0','none':False}
+        ii=InspD('ii'); ii.dyn_run=(lambda m: ['/nonexistent-command-for-replay'] if fail else ([] if nostatus else ['sh','-c','exit %d'%model_value(m,rv)]))
+        i0=InspD('i0'); i0.dyn_run=(lambda m: ['true'])
+        inner=LayoutD([],[],[ii])
+        dirs={():[FileD('d',F0,BlockD('link',LinkD('d',{'a':[1]},{'b':[2]}),[lsig])),FileD('d',F1,BlockD('layout',inner,[SigD(F1,F1)]))],(('d',F1),):[]}
+        lay=LayoutD([F0,F1],[StepD('d',1,[F0,F1])],[i0])
+        lb=BlockD('layout',lay,[SigD(OWN,OWN)]); caller=[(OWN,OWN)]
+        args=self.install(run,lb,caller,dirs)
+        run.ghost['insp']={'ii':gi,'i0':go}
+        return args,{'lb':lb,'caller':caller,'dirs':dirs,'gi':gi,'lsig':lsig}
+    def check(self,run,out,g):
+        oc=outcome_of(out); rec=self.new_rec(oc)
+        mk=lambda m: conc_scenario(m,g['lb'],g['caller'],g['dirs'],1700000000,repeat=2)
+        if oc=='panic':
+            r,m=run.check_sat(z3.BoolVal(True))
+            rec['viol']={'kind':'panic','known_key':None,'scenario':mk(m),'predicted':'panic','what':'in_toto_verify panics: '+str(out[1])}; return rec
+        gi=g['gi']; ran_inner=any(e[0]=='run' and e[1]=='ii' for e in run.ghost['events'])
+        small=z3.And(gi['rv']>=0,gi['rv']<=255)
+        inner_bad=z3.Or(z3.BoolVal(gi['fail'] or gi['none']),gi['rv']!=0)
+        if oc=='ok':
+            if ran_inner or True:
+                # the sub-layout filed by an authorized functionary is part of the evidence that was verified: its inspection failing must fail verification
+                if self.classify(run,rec,z3.And(inner_bad,small),{},mk,'ok','verification succeeds although the inspection of a sub-layout among the verified evidence failed (non-zero exit status, no status, or could not be started)','sublayout_inspection_failure_not_fatal'): return rec
+            self.wit(run,rec,'ok_inner_inspection_passed')
+        elif oc.startswith('err'):
+            self.wit(run,rec,'err_inner_inspection_failed',z3.And(inner_bad,small))
+        if is_sample(run,self.seed,4):
+            r,m=run.check_sat(small)
+            if r==z3.sat: rec['sample']={'scenario':mk(m),'expect':'ok' if oc=='ok' else 'err'}
+        return rec
